@@ -1,0 +1,39 @@
+//go:build verif
+
+package signaling_rpc_server
+
+// VerifStateSizes returns the number of peer trackers and session trackers
+// currently held by the server (read under the server mutex).
+func (s *Server) VerifStateSizes() (peers, sessions int) {
+	s.mtx.Lock()
+	defer s.mtx.Unlock()
+	return len(s.peers), len(s.sessions)
+}
+
+// VerifSessionEpoch returns the current session seqno of the session between
+// peers a and b (encoded peer ids, any order) and whether a call of a / of b is
+// currently attached to it (read under the server mutex). Returns zero values
+// if there is no such session tracker.
+func (s *Server) VerifSessionEpoch(a, b string) (seqno uint64, aAttached, bAttached bool) {
+	key, aIsPeerA := newSessionKey(a, b)
+	s.mtx.Lock()
+	defer s.mtx.Unlock()
+	sess := s.sessions[key]
+	if sess == nil {
+		return 0, false, false
+	}
+	pa, pb := sess.getCurrPeers(aIsPeerA)
+	return sess.seqno, pa != nil, pb != nil
+}
+
+// VerifPeerState returns whether a peer tracker exists for the peer, its
+// listening flag and the number of peers wanting a session with it.
+func (s *Server) VerifPeerState(pid string) (exists, listening bool, wants int) {
+	s.mtx.Lock()
+	defer s.mtx.Unlock()
+	tkr := s.peers[pid]
+	if tkr == nil {
+		return false, false, 0
+	}
+	return true, tkr.listening, len(tkr.wantPeers)
+}
